@@ -329,17 +329,39 @@ func (w *liWorld) exec(r *Run, line string) string {
 		// `blk! <bn> <k> <events…>`: the k-th write statement of the block's transaction fails once. When the fault fires the
 		// attempt is recorded for the model as `blkF` (an environment event: SOME statement failed), otherwise as a plain `blk`.
 		bn := bigOf(ws[1]).Uint64()
+		wasHalted := w.p.IsHalted()
 		blk := sync.Block{Num: bn, Hash: common.BigToHash(new(big.Int).SetUint64(bn*104729 + 7))}
 		for _, tok := range ws[3:] {
 			blk.Events = append(blk.Events, liParseEv(tok))
 		}
 		k, mode := bigOf(ws[2]).Uint64(), 1
-		if k >= 1000 {
+		away := ""
+		switch {
+		case k >= 5000:
+			// read fault: one of the trees' root tables cannot be read while the block is processed (renamed away for that time)
+			away = []string{"l1_info_root", "rollup_exit_root"}[k%2]
+			k, mode = 1<<40, 1
+		case k >= 1000:
 			k, mode = k-1000, 2 // count the block / leaf / batch / initial rows only
 		}
 		_, err := w.ctl.Exec(`UPDATE verif_fault SET armed=$1, target=$2, n=0`, mode, k)
 		must(err)
+		if away != "" {
+			_, err = w.ctl.Exec(fmt.Sprintf(`ALTER TABLE %s RENAME TO %s_verif_away`, away, away))
+			must(err)
+		}
 		perr := w.p.ProcessBlock(ctx, blk)
+		if away != "" {
+			_, err = w.ctl.Exec(fmt.Sprintf(`ALTER TABLE %s_verif_away RENAME TO %s`, away, away))
+			must(err)
+			if perr != nil && !errors.Is(perr, sync.ErrInconsistentState) {
+				perr = fmt.Errorf("verif fault (read): %w", perr)
+			}
+			if w.p.IsHalted() && !wasHalted {
+				r.Fail(fmt.Sprintf("[C07,C14] a failed read of table %s while block %d was processed halted the L1 info syncer: a transient storage fault is not an inconsistency with the chain (result: %v)", away, bn, perr),
+					append([]string{"new"}, w.lines...))
+			}
+		}
 		_, e2 := w.ctl.Exec(`UPDATE verif_fault SET armed=0`)
 		if e2 != nil && strings.Contains(e2.Error(), "locked") {
 			r.Fail(fmt.Sprintf("[C07] after ProcessBlock(%d) returned `%v` the L1 info store stays locked for every other connection: the block's transaction was neither committed nor rolled back", bn, perr),
